@@ -72,9 +72,11 @@ Proof. exact build_domain_case_insensitive. Qed.
 Print Assumptions c04_domain_case_insensitive.
 
 (* what the translator read from routers_impl.go findVirtualHost: the Host is lower-cased once, and a lookup that gave no
-   index falls back to the default virtual host before giving up *)
-Theorem c04_router_source_shape : RouterSrc_translator_ok = true /\ host_fallback_default = true.
-Proof. split; exact (eq_refl _). Qed.
+   index falls back to the default virtual host before giving up; and from virtualhost.go GetRouteFromEntries: one
+   loop over vh.routes returning the first Match (no index consulted) *)
+Theorem c04_router_source_shape :
+  RouterSrc_translator_ok = true /\ host_fallback_default = true /\ route_scan_is_linear = true.
+Proof. repeat split; exact (eq_refl _). Qed.
 Print Assumptions c04_router_source_shape.
 
 (* an unset, empty or malformed Host: no exact or wildcard domain can apply, the default virtual host is used *)
@@ -106,6 +108,42 @@ Print Assumptions c04_all_matches.
 Theorem c04_first_is_head_of_all : forall rs rq, first_route rs rq = hd_error (all_routes rs rq).
 Proof. exact all_routes_head. Qed.
 Print Assumptions c04_first_is_head_of_all.
+
+(* the fast index (fastIndex / MatchRouteFromHeaderKV): under key/value it holds the LAST route whose only header
+   criterion is key = value.  MatchRoute does not use it; the two theorems after the first say exactly when an indexed
+   lookup coincides with the first-match scan (unique key/value, or a single matching route), the last one shows that
+   it does not in general - a lookup that consults the index first is not first-match. *)
+Theorem c04_fast_index_content : forall rs k v,
+  match fast_lookup rs k v with
+  | Some r => exists pre post, rs = (pre ++ r :: post)%list /\ index_key_is k v r = true /\
+                               Forall (fun x => index_key_is k v x = false) post
+  | None => Forall (fun x => index_key_is k v x = false) rs
+  end.
+Proof. exact fast_lookup_spec. Qed.
+Print Assumptions c04_fast_index_content.
+
+Theorem c04_fast_index_finds_first_match : forall rs rq r k v,
+  first_route rs rq = Some r -> index_key_is k v r = true ->
+  (forall r', In r' rs -> index_key_is k v r' = true -> r' = r) ->
+  fast_lookup rs k v = Some r.
+Proof. exact fast_lookup_finds_first_match. Qed.
+Print Assumptions c04_fast_index_finds_first_match.
+
+Theorem c04_fast_candidate_is_first_match : forall rs rq r k v,
+  fast_lookup rs k v = Some r -> route_holds rq r = true ->
+  (forall r', In r' rs -> route_holds rq r' = true -> r' = r) ->
+  first_route rs rq = Some r.
+Proof. exact fast_candidate_is_first_match. Qed.
+Print Assumptions c04_fast_candidate_is_first_match.
+
+Theorem c04_fast_index_is_not_first_match :
+  let r1 := Build_route (Build_rmatch "/api/v1" "" None [Build_hmatch "x-env" "gray" None] [] []) "first" false in
+  let r2 := Build_route (Build_rmatch "/api" "" None [Build_hmatch "x-env" "gray" None] [] []) "second" false in
+  let rq := Build_request [("x-mosn-path", "/api/v1/x")] [("x-env", "gray")] [] [] in
+  option_map r_cluster (first_route [r1; r2] rq) = Some "first" /\
+  option_map r_cluster (fast_lookup [r1; r2] "x-env" "gray") = Some "second".
+Proof. exact fast_index_is_not_first_match. Qed.
+Print Assumptions c04_fast_index_is_not_first_match.
 
 (* pure: the answer depends on configuration and request only - not on the order the unstable sort produced, and not
    on the other lookups made on the same table (lookups do not change it) *)
